@@ -682,13 +682,70 @@ Definition conn_sound (i : input) (dst : bytes) (fs : list oframe) : bool :=
   forallb (fun f => negb (is_od f) || existsb (fun k => from_src k f) srcs) fs &&
   forallb (fun src => subseq (filter (from_src src) fs) (pair_sends i src dst)) srcs.
 
-Definition monitor (i : input) (o : output) : bool :=
+Definition monitor1 (i : input) (o : output) : bool :=
   match o with
   | Ok l =>
       Nat.eqb (length l) (length (conn_ids (i_ops i))) &&
       forallb (fun x => conn_sound i (fst x) (snd (snd x))) (combine (conn_ids (i_ops i)) l)
   | _ => false
   end.
+
+(* ---- "only on the connection that was the destination's ACTIVE one when the relay
+   accepted it".  The registry history of the script: replaying the case's trace (the
+   harness schedule), every frame read from a running connection that decodes to
+   datagrams for [dst] while the registry has an entry for [dst] is routed to that entry's
+   active connection AT THAT MOMENT (Clients::send_packet, clients.rs:200-221): recorded as
+   (that connection, (authenticated sender id, datagram)), in trace order. *)
+Definition route_of (cfg : cfg) (s : state) (e : event) : list (N * (bytes * dgram)) :=
+  match e with
+  | ERecv k raw =>
+      match getc s k with
+      | Some c =>
+          if is_running c then
+            match decode (valid cfg) raw with
+            | Ok (CDatagrams dst d) =>
+                match find_entry dst (reg s) with
+                | Some en => [(e_active en, (c_id c, d))]
+                | None => []
+                end
+            | _ => []
+            end
+          else []
+      | None => []
+      end
+  | _ => []
+  end.
+Fixpoint routes_from (cfg : cfg) (s : state) (t : list event) : list (N * (bytes * dgram)) :=
+  match t with
+  | [] => []
+  | e :: r => route_of cfg s e ++ routes_from cfg (step cfg s e) r
+  end.
+Definition routes (cfg : cfg) (t : list event) := routes_from cfg init t.
+(* the case's trace under the harness schedule, oldest first *)
+Definition trace_of (i : input) : list event := rev (snd (exec (cfg_of i) (i_ops i))).
+Definition to_conn (k : N) (R : list (N * (bytes * dgram))) : list (bytes * dgram) :=
+  map snd (filter (fun x => fst x =? k) R).
+(* datagrams of sender [src] routed to connection number [k], in order *)
+Definition conn_routed (R : list (N * (bytes * dgram))) (k : N) (src : bytes) : list dgram :=
+  map snd (filter (fun x => bytes_eqb (fst x) src) (to_conn k R)).
+Definition indices {A} (l : list A) : list N := map N.of_nat (seq 0 (length l)).
+
+(* on every connection (by its NUMBER, not its id) and for every sender id of the case, the
+   datagram frames attributed to that sender are, in order, a subsequence of the datagrams
+   of that sender that were routed to THIS connection, i.e. accepted while it was its
+   endpoint's active connection; a frame on an inactive duplicate has no such send *)
+Definition monitor2 (i : input) (o : output) : bool :=
+  match o with
+  | Ok l =>
+      let R := routes (cfg_of i) (trace_of i) in
+      let srcs := conn_ids (i_ops i) in
+      forallb (fun kx => forallb (fun src => subseq (filter (from_src src) (snd (snd kx)))
+                                                    (conn_routed R (fst kx) src)) srcs)
+              (combine (indices l) l)
+  | _ => false
+  end.
+
+Definition monitor (i : input) (o : output) : bool := monitor1 i o && monitor2 i o.
 
 Definition known (i : input) : N := 0.
 
